@@ -139,18 +139,22 @@ def rule_js_handback(check):
                     resp = jsast.ident_name(d["id"])
     check.expect(ok_call and resp, R, R + "/native-call", js.loc(m), "response = nativeRewriter.rewrite(code, file)", "NonCacheRewriter.rewrite does not call the native rewriter with (code, file)")
     variants = [v["name"].lower() for v in prog.adt("transform_status::Status")["variants"]]
-    handed = False
-    for st in body:
-        if st["type"] == "IfStatement":
-            cmp_ = jsast.strict_eq_literal(st["test"])
-            if cmp_ and jsast.opt_member_chain(cmp_[0]) == [resp, "metrics", "status"]:
-                lit = cmp_[1]
-                check.expect(lit in variants, R, R + "/status-literal", js.loc(st), "compares with %r (a Status name)" % lit, "main.js compares metrics.status with %r which is no lower-cased Status variant %s" % (lit, variants))
-                assigns = [x for x in jsast.walk(st["consequent"]) if x.get("type") == "AssignmentExpression"]
-                for a in assigns:
-                    if jsast.member_chain(a["left"]) == [resp, "content"] and jsast.ident_name(a["right"]) == params[0] and a["operator"] == "=":
-                        handed = lit == "notmodified"
-    check.expect(handed, R, R + "/content", js.loc(m), "response.content = code when status === 'notmodified'", "NonCacheRewriter.rewrite does not hand back the caller's code for not-modified results")
+    from .. import jsguards, jsflow as JF, boolform as BF
+    F = jsguards.File(js)
+    NOT = BF.atom("status-is-notmodified")
+
+    def atomize(e, top):
+        cmp_ = jsast.strict_eq_literal(e, F.consts) if e.get("type") == "BinaryExpression" else None
+        if cmp_ and jsast.opt_member_chain(JF.unparen(cmp_[0])) == [resp, "metrics", "status"]:
+            check.expect(cmp_[1] in variants, R, R + "/status-literal", js.loc(e), "compares with %r (a Status name)" % cmp_[1], "main.js compares metrics.status with %r which is no lower-cased Status variant %s" % (cmp_[1], variants))
+            return BF.atom("status-is-" + cmp_[1])
+        return None
+
+    reach = jsguards.Reach(F, atomize, stop=[m])
+    sites = [a for a in jsast.walk(m) if a.get("type") == "AssignmentExpression" and jsast.member_chain(a["left"]) == [resp, "content"] and jsast.ident_name(a["right"]) == params[0] and a["operator"] == "="]
+    check.expect(bool(sites), R, R + "/content", js.loc(m), "response.content = code", "NonCacheRewriter.rewrite does not hand back the caller's code for not-modified results")
+    if sites:
+        jsguards.expect_gate(check, R, R + "/content-gate", js.loc(sites[0]), reach.any_of(sites), NOT, "the caller's code is handed back")
     last = body[-1]
     ok_ret = last["type"] == "ReturnStatement" and jsast.ident_name(last.get("argument")) == resp
     others = [x for x in jsast.walk(m["function"]["body"]) if x.get("type") == "ReturnStatement" and x is not last]
